@@ -1,6 +1,10 @@
 (* C03 — the model instantiated with the facts generated from the current source
-   (gen/Gen_Limits.v) and the case runner of the correspondence check. *)
-From Coq Require Import List ZArith Bool Arith String.
+   (gen/Gen_Limits.v) and the case runner of the correspondence check.
+
+   Case encoding (kept cheap to parse): integer lists travel as strings of decimal numbers
+   separated by blanks ("12 7 -3") and are decoded here by [parse_zs]; one case is one collection
+   with its queries grouped by filter, so every filter term is parsed once. *)
+From Coq Require Import List ZArith Bool Arith String Ascii.
 From Verif Require Import Filter.Model gen.Gen_Limits.
 Import ListNotations.
 Open Scope list_scope.
@@ -13,34 +17,88 @@ Definition now_query_last_ids (c : coll) := query_last_ids hs_run leaf_bounded c
 Definition now_query_all_ids (c : coll) := query_all_ids hs_run leaf_bounded c.
 Definition now_search_ids (c : coll) :=
   search_ids hs_run leaf_bounded c max_search_limit search_default_limit search_topk_factor search_topk_cap.
+Definition now_eval_err (c : coll) := eval_err hs_run leaf_bounded c.
 Definition now_within_budget : flt -> bool :=
   within_budget max_filter_depth max_filter_nodes max_filter_branches max_range_include_keys.
 
+(* ------------------------------------------------------------------ decoding *)
+Definition flush_num (cur : option Z) (neg : bool) (acc : list Z) : list Z :=
+  match cur with Some v => (if neg then Z.opp v else v) :: acc | None => acc end.
+Fixpoint pz (s : string) (cur : option Z) (neg : bool) (acc : list Z) : list Z :=
+  match s with
+  | EmptyString => rev (flush_num cur neg acc)
+  | String ch r =>
+      let n := nat_of_ascii ch in
+      if Nat.eqb n 45 then pz r cur true acc
+      else if Nat.leb 48 n && Nat.leb n 57 then
+        pz r (Some (match cur with Some v => v * 10 | None => 0 end + Z.of_nat (n - 48))%Z) neg acc
+      else pz r None false (flush_num cur neg acc)
+  end.
+Definition parse_zs (s : string) : list Z := pz s None false [].
+
+(* an index entry "key id id id" *)
+Definition dec_entry (s : string) : Z * list Z :=
+  match parse_zs s with k :: p => (k, p) | [] => (0%Z, []) end.
+
+Definition mcoll := (string * list (string * list string))%type.
+Definition mk_coll (m : mcoll) : coll :=
+  {| c_ids := parse_zs (fst m);
+     c_idx := map (fun ni => (fst ni, map dec_entry (snd ni))) (snd m) |}.
+
+(* ------------------------------------------------------------------ queries *)
 Inductive entry : Type :=
-| EFirst (l : option nat)
-| ELast (l : option nat)
-| EAll
-| ESearch (cands : option (list Z)) (l : option nat).
+| EFirst (l : option nat)                       (* query_ids *)
+| ELast (l : option nat)                        (* query_last_ids *)
+| EAll                                          (* query_all_ids *)
+| ESearch (cands : option string) (l : option nat).   (* search_ids: candidates of the search clause, if any *)
 
-Definition mcoll := (list Z * list (string * index))%type.
-Definition mquery := (flt * entry * bool)%type.          (* the bool (limit cuts the match set) is informative *)
-Definition mcase := (mcoll * list mquery)%type.
-Definition mobs := list (option (list Z)).               (* None: the implementation returned an error *)
+Definition mgroup := (flt * list entry)%type.
+Definition mcase := (mcoll * list mgroup)%type.
+Inductive mobs1 : Type := OOk (ids : string) | OErr (e : qerr).
+Definition mobs := list (list mobs1).
 
-Definition mk_coll (m : mcoll) : coll := {| c_ids := fst m; c_idx := snd m |}.
-
-Definition run_query (c : coll) (q : mquery) : option (list Z) :=
-  let '(f, e, _) := q in
-  if now_within_budget f then
-    Some match e with
-         | EFirst l => now_query_ids c f l
-         | ELast l => now_query_last_ids c f l
-         | EAll => now_query_all_ids c f
-         | ESearch s l => now_search_ids c s f l
-         end
-  else None.
-
-Definition run_case (mc : mcase) : mobs := map (run_query (mk_coll (fst mc))) (snd mc).
+(* an entry point from its first line to its return value: complexity validation, the zero-limit
+   shortcut, then the evaluation (first error in evaluation order, else the value) *)
+Definition run_entry (c : coll) (f : flt) (e : entry) : qerr + list Z :=
+  if negb (now_within_budget f) then inl EBudget
+  else
+    match e with
+    | EFirst l =>
+        match l with
+        | Some 0 => inr []
+        | _ => match now_eval_err c f None false with
+               | Some er => inl er
+               | None => inr (now_query_ids c f l)
+               end
+        end
+    | ELast l =>
+        match l with
+        | Some 0 => inr []
+        | _ => match now_eval_err c f None true with
+               | Some er => inl er
+               | None => inr (now_query_last_ids c f l)
+               end
+        end
+    | EAll =>
+        match now_eval_err c f None false with
+        | Some er => inl er
+        | None => inr (now_query_all_ids c f)
+        end
+    | ESearch s l =>
+        let lim := Nat.min (match l with Some n => n | None => search_default_limit end) max_search_limit in
+        if (lim =? 0)%nat then inr []
+        else
+          let cs := match s with Some t => Some (parse_zs t) | None => None end in
+          match cs with
+          | Some [] => inr []
+          | _ =>
+              let cand := match cs with Some l' => Some l' | None => None end in
+              match now_eval_err c f cand false with
+              | Some er => inl er
+              | None => inr (now_search_ids c cs f l)
+              end
+          end
+    end.
 
 Fixpoint list_eqb (a b : list Z) : bool :=
   match a, b with
@@ -48,29 +106,45 @@ Fixpoint list_eqb (a b : list Z) : bool :=
   | x :: a', y :: b' => (x =? y)%Z && list_eqb a' b'
   | _, _ => false
   end.
-Definition obs_eqb (a b : option (list Z)) : bool :=
+Definition qerr_eqb (a b : qerr) : bool :=
   match a, b with
-  | Some x, Some y => list_eqb x y
-  | None, None => true
+  | EBudget, EBudget | EIndex, EIndex | EType, EType => true
   | _, _ => false
   end.
-Fixpoint all2 (a b : mobs) : bool :=
+Definition obs_eqb (m : qerr + list Z) (o : mobs1) : bool :=
+  match m, o with
+  | inr x, OOk s => list_eqb x (parse_zs s)
+  | inl e, OErr e' => qerr_eqb e e'
+  | _, _ => false
+  end.
+
+Fixpoint all2 {A B} (p : A -> B -> bool) (a : list A) (b : list B) : bool :=
   match a, b with
   | [], [] => true
-  | x :: a', y :: b' => obs_eqb x y && all2 a' b'
+  | x :: a', y :: b' => p x y && all2 p a' b'
   | _, _ => false
   end.
+
+Definition check_group (c : coll) (g : mgroup) (o : list mobs1) : bool :=
+  all2 (fun e o1 => obs_eqb (run_entry c (fst g) e) o1) (snd g) o.
 
 (* the dumped collection is well-formed and the model agrees with every observation *)
 Definition check_case (co : mcase * mobs) : bool :=
-  wf_coll (mk_coll (fst (fst co))) && all2 (run_case (fst co)) (snd co).
+  let c := mk_coll (fst (fst co)) in
+  wf_coll c && all2 (check_group c) (snd (fst co)) (snd co).
 
-(* positions where model and observation differ (diagnostics) *)
-Fixpoint diff_from (i : nat) (a b : mobs) : list nat :=
-  match a, b with
-  | x :: a', y :: b' => (if obs_eqb x y then [] else [i]) ++ diff_from (S i) a' b'
+(* positions (group, entry) where model and observation differ (diagnostics) *)
+Fixpoint diff_entries (c : coll) (f : flt) (gi i : nat) (es : list entry) (os : list mobs1) : list (nat * nat) :=
+  match es, os with
+  | e :: es', o :: os' => (if obs_eqb (run_entry c f e) o then [] else [(gi, i)]) ++ diff_entries c f gi (S i) es' os'
   | [], [] => []
-  | _, _ => [i]
+  | _, _ => [(gi, i)]
   end.
-Definition diff_case (co : mcase * mobs) : bool * list nat :=
-  (wf_coll (mk_coll (fst (fst co))), diff_from 0 (run_case (fst co)) (snd co)).
+Fixpoint diff_groups (c : coll) (gi : nat) (gs : list mgroup) (os : mobs) : list (nat * nat) :=
+  match gs, os with
+  | g :: gs', o :: os' => diff_entries c (fst g) gi 0 (snd g) o ++ diff_groups c (S gi) gs' os'
+  | [], [] => []
+  | _, _ => [(gi, 0)]
+  end.
+Definition diff_case (co : mcase * mobs) : bool * list (nat * nat) :=
+  let c := mk_coll (fst (fst co)) in (wf_coll c, diff_groups c 0 (snd (fst co)) (snd co)).
